@@ -1060,6 +1060,44 @@ theorem translated_fsm03_event_is_post (d : Def) (q : Prims δ Du κ α ε (Opti
   rw [h3]
   cases hfl : flowOf (nested d t.f e data).2.1 <;> simp [tsOf, objOf, h1, h2]
 
+/-- **`__init__`, keyword parsing**: every keyword argument is tried against EVERY row of `_ct_prefixes`, in
+    order; a matching prefix with a rest that is not in the container the row refers to (`t_`: the timed states
+    with a default duration entry, `cond_`: the events, the others: the states) is TypeError; otherwise the
+    pair (rest, keyword) is appended under that prefix -/
+theorem translated_fsm03_init_sorts_keywords (p : Prims δ Du κ α ε χ η) (n : Option κ) (o : Obj δ Du κ α ε χ)
+    (args : List String) (dd : List (String × List (String × String))) :
+    match sortArgs p (refContains o) o.ctPrefixes dd args with
+    | .ok dd' => forEach args (initLoop0 p n) { o with tmpDD := dd } = ({ o with tmpDD := dd' }, .next ())
+    | .error _ => (forEach args (initLoop0 p n) { o with tmpDD := dd }).2 = .raise "TypeError" :=
+  sortArgs_spec p n o args dd
+
+/-- **`__init__`** of a block without FSM-specific keywords, statement by statement: shared durations, empty
+    callback / event tables, `_on_notrans`, `_state = UNDEF`, timer / flags / pending request reset, empty
+    `sdata`, `initdef` defaulting to the first state, then `super().__init__` with all keywords -/
+theorem translated_fsm03_init_plain (p : Prims δ Du κ α ε χ η) (n : Option κ) (o : Obj δ Du κ α ε χ)
+    (dd : List (String × List (String × String))) (evs : List ε)
+    (hT : o.typeIsFSM = false)
+    (hdd : sortArgs p (refContains o) o.ctPrefixes [] (o.kwargs.map (·.1)) = .ok dd)
+    (hnone : ∀ k, ddget dd k = []) (hev : p.eventTuple n = .ok evs) :
+    Gen.TrFT.init p n o =
+      ({ o with
+          tmpDD := dd
+          duration := DurRef.shared
+          fsmFunctions := [("cond", []), ("enter", []), ("exit", [])]
+          stateEvents := [("on_enter", []), ("on_exit", [])]
+          onNotrans := evs
+          state := none
+          activeTimerNone := true
+          timersEnabled := false
+          fsmEventActive := false
+          nextEventNone := true
+          sdata := []
+          initdefDefault := (if dhas o.kwargs "initdef" then o.initdefDefault else some o.ctDefaultState)
+          calls := (o.calls ++ [Call.superInit o.kwargs
+            (if dhas o.kwargs "initdef" then o.initdefDefault else some o.ctDefaultState)]) },
+        .next ()) :=
+  init_plain_spec p n o dd evs hT hdd hnone hev
+
 end tables
 
 end Edzed.TrTie
